@@ -501,6 +501,12 @@ def t_zip_dict_roundtrip(keys, values):
     ks, vs = zip(*d.items())
     return d, inv, ks, vs, list(d), list(d.values()), sorted(inv)
 
+
+def t_itertools_predicates(a):
+    odd = lambda x: x % 2 == 1
+    return (list(itertools.filterfalse(odd, a)), list(itertools.filterfalse(None, a)), list(itertools.takewhile(odd, a)), list(itertools.dropwhile(odd, a)),
+            list(itertools.takewhile(odd, [])), list(itertools.dropwhile(odd, [1, 3])))
+
 '''
 
 from pathlib import Path
@@ -526,7 +532,7 @@ CASES = {
 CASES.update({
  "t_inheritance": [(1,)], "t_dataclass": [(4,)], "t_contextmanager": [("k",)], "t_exitstack": [()], "t_gen_finally": [(3,)], "t_kwargs": [((7, 8), {"c": 1}), ((1,), {})],
  "t_sentinel": [({"a": 1},)], "t_numeric": [(5,), (12,)], "t_str_building": [(["ab", "cd", "ef"],)], "t_assert_and_raise": [(-1,), (9,), (4,), (1,)],
- "t_nested_functions_and_map_filter": [([0, 1, 2, 3],)], "t_del_and_in": [({"a": 1, "b": 2},)], "t_zip_dict_roundtrip": [(["x", "y"], [1, 2])],
+ "t_nested_functions_and_map_filter": [([0, 1, 2, 3],)], "t_itertools_predicates": [([1, 3, 0, 2, 5],), ([2, 1],)], "t_del_and_in": [({"a": 1, "b": 2},)], "t_zip_dict_roundtrip": [(["x", "y"], [1, 2])],
 })
 
 
